@@ -199,25 +199,6 @@ pub(crate) fn svc_live(w: &World, k: u8) -> bool {
     w.b.svc_uuids.contains_key(&svc_cookie(k))
 }
 
-/// the single logged message, if exactly one was sent to `to`
-pub(crate) fn only_msg_to(to: u8) -> Option<&'static Message> {
-    let mut found = None;
-    let mut n = 0;
-    let mut i = 0;
-    while i < LOG_CAP {
-        if i < log_len() && log(i).to == to {
-            found = Some(&log(i).msg);
-            n += 1;
-        }
-        i += 1;
-    }
-    if n == 1 {
-        found
-    } else {
-        None
-    }
-}
-
 // =================================================================================================
 // C03: registry lemmas
 // =================================================================================================
@@ -246,24 +227,17 @@ mod reg_object {
             assert!(obj_live(&w, u) == live0 && obj_owner(&w, u) == owner0);
         } else {
             assert!(r.is_ok() && log_len() == 1 && log(0).to == who, "exactly one reply, to the requester");
-            match &log(0).msg {
-                Message::CreateObjectReply(rep) => {
-                    assert!(rep.serial == serial);
-                    match rep.result {
-                        CreateObjectResult::Ok(c) => {
-                            assert!(!live0, "ok exactly when no live object has this uuid");
-                            assert!(c == obj_cookie(fresh()), "cookie comes from the RNG (fresh by assumption)");
-                            assert!(obj_owner(&w, u) == Some(who) && w.b.objs.len() == n_objs0 + 1);
-                            let q = stv::create_object(&w.st);
-                            assert!(q.len() == 1 && q[0] == ObjectId::new(obj_uuid(u), c), "one creation event queued");
-                        }
-                        CreateObjectResult::DuplicateObject => {
-                            assert!(live0 && obj_owner(&w, u) == owner0 && w.b.objs.len() == n_objs0);
-                            assert!(stv::create_object(&w.st).is_empty());
-                        }
-                    }
-                }
-                _ => panic!("wrong reply kind"),
+            let rep = log(0);
+            assert!(rep.kind == K::CreateObjectReply && rep.serial == serial);
+            if rep.code == 0 {
+                assert!(!live0, "ok exactly when no live object has this uuid");
+                assert!(rep.cookie == fresh(), "cookie comes from the RNG (fresh by assumption)");
+                assert!(obj_owner(&w, u) == Some(who) && w.b.objs.len() == n_objs0 + 1);
+                let q = stv::create_object(&w.st);
+                assert!(q.len() == 1 && q[0] == ObjectId::new(obj_uuid(u), obj_cookie(fresh())), "one creation event queued");
+            } else {
+                assert!(live0 && obj_owner(&w, u) == owner0 && w.b.objs.len() == n_objs0);
+                assert!(stv::create_object(&w.st).is_empty());
             }
             assert!(inv_reg(&w.b));
         }
@@ -299,10 +273,10 @@ mod reg_object {
             assert!((c < 12 && obj_live(&w, u)) == live0, "nothing destroyed when the reply cannot be delivered");
         } else {
             assert!(r.is_ok() && log_len() == 1 && log(0).to == who);
-            let Message::DestroyObjectReply(rep) = &log(0).msg else { panic!("wrong reply kind") };
-            assert!(rep.serial == serial);
-            match rep.result {
-                DestroyObjectResult::Ok => {
+            let rep = log(0);
+            assert!(rep.kind == K::DestroyObjectReply && rep.serial == serial);
+            match rep.code {
+                0 => {
                     assert!(live0 && owner0 == Some(who), "only the owner can destroy a live object");
                     assert!(!obj_live(&w, u), "object gone");
                     assert!(!(svc20_on_u && svc_live(&w, 20)) && !(svc21_on_u && svc_live(&w, 21)), "all its services are gone");
@@ -311,9 +285,9 @@ mod reg_object {
                     let nsvc = (svc20_on_u as usize) + (svc21_on_u as usize);
                     assert!(stv::destroy_service(&w.st).len() == nsvc, "one destruction event per service");
                 }
-                DestroyObjectResult::InvalidObject => assert!(!live0 && c >= 10),
-                DestroyObjectResult::ForeignObject => {
-                    assert!(live0 && owner0 != Some(who));
+                1 => assert!(!live0 && c >= 10),
+                _ => {
+                    assert!(rep.code == 2 && live0 && owner0 != Some(who));
                     assert!(obj_live(&w, u));
                 }
             }
@@ -366,21 +340,23 @@ mod reg_service {
         let n_svcs0 = w.b.svcs.len();
         let r = w.b.create_service(&mut w.st, &conn(who), CreateService { serial, object_cookie: obj_cookie(oc), uuid: svc_uuid(su), version });
         assert!(r.is_ok() && log_len() == 1 && log(0).to == who, "exactly one reply, to the requester");
-        let Message::CreateServiceReply(rep) = &log(0).msg else { panic!("wrong reply kind") };
-        assert!(rep.serial == serial);
-        match rep.result {
-            CreateServiceResult::Ok(k) => {
+        let rep = log(0);
+        assert!(rep.kind == K::CreateServiceReply && rep.serial == serial);
+        // digest codes: 0 ok, 1 duplicate, 2 invalid object, 3 foreign; expected_create_service: 0 ok, 1 invalid, 2 duplicate, 3 foreign
+        match rep.code {
+            0 => {
+                let k = svc_cookie(fresh());
                 assert!(expect == 0, "ok exactly when the object is live, owned by the requester and has no such service");
-                assert!(k == svc_cookie(fresh()));
+                assert!(rep.cookie == fresh());
                 assert!(w.b.svcs.len() == n_svcs0 + 1);
                 let (oid, su2, info) = w.b.svc_uuids.get(&k).unwrap();
                 assert!(oid.cookie == obj_cookie(oc) && *su2 == svc_uuid(su) && info.version() == version);
                 let q = stv::create_service(&w.st);
                 assert!(q.len() == 1 && q[0].cookie == k && q[0].uuid == svc_uuid(su) && q[0].object_id == *oid);
             }
-            CreateServiceResult::InvalidObject => assert!(expect == 1),
-            CreateServiceResult::DuplicateService => assert!(expect == 2),
-            CreateServiceResult::ForeignObject => assert!(expect == 3),
+            2 => assert!(expect == 1),
+            1 => assert!(expect == 2),
+            _ => assert!(rep.code == 3 && expect == 3),
         }
         if expect != 0 {
             assert!(w.b.svcs.len() == n_svcs0 && stv::create_service(&w.st).is_empty());
@@ -432,17 +408,17 @@ mod reg_service {
             assert!(r.is_err() && log_len() == 0 && svc_live(&w, k) == live0);
         } else {
             assert!(r.is_ok() && log_len() == 1 && log(0).to == who);
-            let Message::DestroyServiceReply(rep) = &log(0).msg else { panic!("wrong reply kind") };
-            assert!(rep.serial == serial);
-            match rep.result {
-                DestroyServiceResult::Ok => {
+            let rep = log(0);
+            assert!(rep.kind == K::DestroyServiceReply && rep.serial == serial);
+            match rep.code {
+                0 => {
                     assert!(live0 && owner0 == Some(who), "only the owner of the object can destroy its service");
                     assert!(!svc_live(&w, k));
                     let q = stv::destroy_service(&w.st);
                     assert!(q.len() == 1 && q[0].cookie == svc_cookie(k));
                 }
-                DestroyServiceResult::InvalidService => assert!(!live0),
-                DestroyServiceResult::ForeignObject => assert!(live0 && owner0 != Some(who) && svc_live(&w, k)),
+                1 => assert!(!live0),
+                _ => assert!(rep.code == 2 && live0 && owner0 != Some(who) && svc_live(&w, k)),
             }
             assert!(svc_live(&w, other) == other_live0, "other services untouched");
             assert!(w.b.objs.len() == n_objs0, "objects untouched");
@@ -466,11 +442,12 @@ mod reg_service {
         let live = w.b.svc_uuids.get(&svc_cookie(k)).map(|(_, _, i)| i.version());
         let r = w.b.query_service_version(&conn(who), QueryServiceVersion { serial, cookie: svc_cookie(k) });
         assert!(r.is_ok() && log_len() == 1 && log(0).to == who);
-        let Message::QueryServiceVersionReply(rep) = &log(0).msg else { panic!("wrong reply kind") };
-        assert!(rep.serial == serial);
-        match rep.result {
-            QueryServiceVersionResult::Ok(v) => assert!(live == Some(v)),
-            QueryServiceVersionResult::InvalidService => assert!(live.is_none()),
+        let rep = log(0);
+        assert!(rep.kind == K::QueryServiceVersionReply && rep.serial == serial);
+        if rep.code == 0 {
+            assert!(live == Some(rep.aux));
+        } else {
+            assert!(live.is_none());
         }
         assert!(inv_reg(&w.b));
         kani::cover!(live.is_some());
@@ -551,16 +528,8 @@ fn chan_ends(w: &World) -> Option<(Option<(ConnectionId, u32)>, Option<(Connecti
     })
 }
 
-fn count_kind_to(to: u8, pred: impl Fn(&Message) -> bool) -> usize {
-    let mut n = 0;
-    let mut i = 0;
-    while i < LOG_CAP {
-        if i < log_len() && log(i).to == to && pred(&log(i).msg) {
-            n += 1;
-        }
-        i += 1;
-    }
-    n
+fn count_kind_to(to: u8, kind: K, pred: impl Fn(&LogEntry) -> bool) -> usize {
+    count_where(|e| e.to == to && e.kind == kind && pred(e))
 }
 
 #[cfg(any(verif_unit = "all", verif_unit = "chan_handlers", verif_unit = "chan_handlers_t"))]
@@ -589,10 +558,10 @@ mod chan_handlers {
                     let (_, sc) = s0.unwrap();
                     if sc > 0 {
                         // within the announced capacity: forwarded exactly once, payload unchanged
-                        let fwd = count_kind_to(ro.0, |m| matches!(m, Message::ItemReceived(_)));
+                        let fwd = count_kind_to(ro.0, K::ItemReceived, |e| e.cookie == 30 && e.vlen == 2 && e.v1 == 7);
                         assert!(fwd == if send_fails(ro.0) { 0 } else { 1 });
                         assert!(rc > 0, "never forwarded beyond what the receiver granted");
-                        let topup = count_kind_to(who, |m| matches!(m, Message::AddChannelCapacity(_)));
+                        let topup = count_kind_to(who, K::AddChannelCapacity, |e| e.cookie == 30);
                         assert!(topup <= 1);
                         assert!(chan_ends(&w).is_some(), "a sender within its capacity is never cut off");
                         let (s1, r1, _, _) = chan_ends(&w).unwrap();
@@ -601,8 +570,8 @@ mod chan_handlers {
                     } else {
                         // beyond the capacity: nothing forwarded, only the sender's end is closed
                         assert!(r.is_ok());
-                        assert!(count_kind_to(ro.0, |m| matches!(m, Message::ItemReceived(_))) == 0);
-                        let told = count_kind_to(ro.0, |m| matches!(m, Message::ChannelEndClosed(c) if c.end == ChannelEnd::Sender));
+                        assert!(count_kind_to(ro.0, K::ItemReceived, |e| e.cookie == 30 && e.vlen == 2 && e.v1 == 7) == 0);
+                        let told = count_kind_to(ro.0, K::ChannelEndClosed, |e| e.code == 0);
                         assert!(told == if send_fails(ro.0) { 0 } else { 1 }, "the receiver is told once that the sender end is closed");
                         let (s1, r1, _, _) = chan_ends(&w).unwrap();
                         assert!(s1.is_none() && r1 == Some((ro, rc)), "the receiver keeps its end");
@@ -618,8 +587,8 @@ mod chan_handlers {
             }
         }
         assert!(inv_chan(&w.b), "channel bookkeeping stays consistent");
-        kani::cover!(pre.is_some() && count_kind_to(0, |m| matches!(m, Message::ItemReceived(_))) == 1);
-        kani::cover!(pre.is_some() && count_kind_to(who, |m| matches!(m, Message::AddChannelCapacity(_))) == 1);
+        kani::cover!(pre.is_some() && count_kind_to(0, K::ItemReceived, |_| true) == 1);
+        kani::cover!(pre.is_some() && count_kind_to(who, K::AddChannelCapacity, |e| e.cookie == 30) == 1);
         std::mem::forget(w);
     }
 
@@ -648,7 +617,7 @@ mod chan_handlers {
                                 Some((so, sc)) => {
                                     let (s1, r1, _, _) = chan_ends(&w).unwrap();
                                     assert!(s1 == Some((so, sc)) && r1.is_none());
-                                    let told = count_kind_to(so.0, |m| matches!(m, Message::ChannelEndClosed(c) if c.end == ChannelEnd::Receiver));
+                                    let told = count_kind_to(so.0, K::ChannelEndClosed, |e| e.code == 1);
                                     assert!(told == if send_fails(so.0) { 0 } else { 1 });
                                 }
                                 None => assert!(chan_ends(&w).is_none()),
@@ -659,7 +628,7 @@ mod chan_handlers {
                             let (s1, r1, _, _) = chan_ends(&w).unwrap();
                             assert!(r1 == Some((ro, nr)));
                             if let Some((so, sc)) = s0 {
-                                let ann = count_kind_to(so.0, |m| matches!(m, Message::AddChannelCapacity(_)));
+                                let ann = count_kind_to(so.0, K::AddChannelCapacity, |e| e.cookie == 30);
                                 if sc <= 4 {
                                     assert!(s1 == Some((so, nr)), "a sender running low is topped up to the receiver's level");
                                     assert!(ann == if send_fails(so.0) { 0 } else { 1 });
@@ -689,14 +658,11 @@ mod chan_handlers {
         let pre = if cookie == chan_cookie(30) { chan_ends(&w) } else { None };
         let r = w.b.claim_channel_end(&mut w.st, &conn(who), ClaimChannelEnd { serial, cookie, end });
         assert!(r.is_ok());
-        let replies = count_kind_to(who, |m| matches!(m, Message::ClaimChannelEndReply(rep) if rep.serial == serial));
+        let replies = count_kind_to(who, K::ClaimChannelEndReply, |e| e.serial == serial);
         assert!(replies == 1, "exactly one reply to the claimer");
-        let Some(rep) = (0..LOG_CAP).filter(|&i| i < log_len()).find_map(|i| match &log(i).msg {
-            Message::ClaimChannelEndReply(rep) => Some(rep.result),
-            _ => None,
-        }) else { panic!("no reply") };
+        let rep = find_where(|e| e.kind == K::ClaimChannelEndReply).unwrap();
         match pre {
-            None => assert!(rep == ClaimChannelEndResult::InvalidChannel && log_len() == 1),
+            None => assert!(rep.code == 2 && log_len() == 1),
             Some((s0, r0, s_un, r_un)) => {
                 let is_sender = matches!(end, ChannelEndWithCapacity::Sender);
                 let (this_un, this_claimed, peer) = if is_sender { (s_un, s0.is_some(), r0) } else { (r_un, r0.is_some(), s0) };
@@ -704,11 +670,11 @@ mod chan_handlers {
                     // an end can be claimed once; the peer is told exactly once
                     let (po, pc) = peer.unwrap();
                     if is_sender {
-                        assert!(rep == ClaimChannelEndResult::SenderClaimed(pc), "the claimer learns the receiver's capacity");
+                        assert!(rep.code == 0 && rep.aux == pc, "the claimer learns the receiver's capacity");
                     } else {
-                        assert!(rep == ClaimChannelEndResult::ReceiverClaimed);
+                        assert!(rep.code == 1);
                     }
-                    let told = count_kind_to(po.0, |m| matches!(m, Message::ChannelEndClaimed(c) if c.cookie == chan_cookie(30)));
+                    let told = count_kind_to(po.0, K::ChannelEndClaimed, |e| e.cookie == 30 && e.code == if is_sender { 0 } else { 1 });
                     assert!(told == if send_fails(po.0) { 0 } else { 1 });
                     let (s1, r1, _, _) = chan_ends(&w).unwrap();
                     if is_sender {
@@ -717,10 +683,10 @@ mod chan_handlers {
                         assert!(r1 == Some((conn(who), cap)) && s1 == Some((po, cap)));
                     }
                 } else if this_claimed {
-                    assert!(rep == ClaimChannelEndResult::AlreadyClaimed);
+                    assert!(rep.code == 3);
                     assert!(chan_ends(&w).map(|(a, b, _, _)| (a, b)) == Some((s0, r0)));
                 } else {
-                    assert!(rep == ClaimChannelEndResult::InvalidChannel);
+                    assert!(rep.code == 2);
                 }
             }
         }
@@ -740,12 +706,9 @@ mod chan_handlers {
         let pre = if cookie == chan_cookie(30) { chan_ends(&w) } else { None };
         let r = w.b.close_channel_end(&mut w.st, &conn(who), CloseChannelEnd { serial, cookie, end });
         assert!(r.is_ok());
-        let Some(rep) = (0..LOG_CAP).filter(|&i| i < log_len()).find_map(|i| match &log(i).msg {
-            Message::CloseChannelEndReply(rep) if log(i).to == who && rep.serial == serial => Some(rep.result),
-            _ => None,
-        }) else { panic!("no reply") };
+        let rep = find_where(|e| e.kind == K::CloseChannelEndReply && e.to == who && e.serial == serial).unwrap();
         match pre {
-            None => assert!(rep == CloseChannelEndResult::InvalidChannel && log_len() == 1),
+            None => assert!(rep.code == 1 && log_len() == 1),
             Some((s0, r0, s_un, r_un)) => {
                 let (this, this_un, other) = match end {
                     ChannelEnd::Sender => (s0, s_un, r0),
@@ -753,10 +716,10 @@ mod chan_handlers {
                 };
                 let allowed = this_un || this.map(|(o, _)| o == conn(who)).unwrap_or(false);
                 if allowed {
-                    assert!(rep == CloseChannelEndResult::Ok);
+                    assert!(rep.code == 0);
                     match other {
                         Some((po, _)) => {
-                            let told = count_kind_to(po.0, |m| matches!(m, Message::ChannelEndClosed(c) if c.end == end));
+                            let told = count_kind_to(po.0, K::ChannelEndClosed, |e| e.cookie == 30 && e.code == if end == ChannelEnd::Sender { 0 } else { 1 });
                             // when claimer and peer are the same connection it also got the reply
                             assert!(told == if send_fails(po.0) { 0 } else { 1 }, "the peer is told exactly once");
                             let (s1, r1, _, _) = chan_ends(&w).unwrap();
@@ -768,10 +731,10 @@ mod chan_handlers {
                         None => assert!(chan_ends(&w).is_none(), "no claimed end left: the channel is removed"),
                     }
                 } else if this.is_some() {
-                    assert!(rep == CloseChannelEndResult::ForeignChannel, "only the owner can close a claimed end");
+                    assert!(rep.code == 2, "only the owner can close a claimed end");
                     assert!(chan_ends(&w).map(|(a, b, _, _)| (a, b)) == Some((s0, r0)) && log_len() == 1);
                 } else {
-                    assert!(rep == CloseChannelEndResult::InvalidChannel && log_len() == 1);
+                    assert!(rep.code == 1 && log_len() == 1);
                 }
             }
         }
@@ -794,8 +757,8 @@ mod chan_handlers {
             assert!(r.is_err());
         } else {
             assert!(r.is_ok() && log_len() == 1 && log(0).to == who);
-            let Message::CreateChannelReply(rep) = &log(0).msg else { panic!("wrong reply") };
-            assert!(rep.serial == serial && rep.cookie == chan_cookie(fresh()));
+            let rep = log(0);
+            assert!(rep.kind == K::CreateChannelReply && rep.serial == serial && rep.cookie == fresh());
         }
         let ch = w.b.channels.get(&chan_cookie(fresh())).unwrap();
         match end {
@@ -940,13 +903,13 @@ pub(crate) struct CallWorld {
     pub b: CallSpec,
 }
 
-fn any_call_spec() -> CallSpec {
+fn any_call_spec(present: bool, caller: u8, aborted: bool) -> CallSpec {
     CallSpec {
-        present: kani::any(),
+        present,
         serial: kani::any(),
-        caller: any_below(2),
+        caller,
         caller_serial: kani::any(),
-        aborted: kani::any(),
+        aborted,
     }
 }
 
@@ -977,15 +940,22 @@ fn install_call(w: &mut World, c: &CallSpec, owner: u8) {
 /// from its caller's `calls` under its caller serial (so two non-aborted calls of one caller have
 /// different caller serials); an aborted call has no back-reference - in particular an aborted
 /// call may share its caller serial with a later, active call of the same caller (serial reuse).
-pub(crate) fn call_world() -> CallWorld {
+///
+/// The *shape* of the state - who owns the service, who the callers are, which calls exist and
+/// which are aborted - is a concrete parameter and the lemmas are instantiated over the shapes
+/// (owner = 0 without loss of generality: the code never looks at the tag value). Serials and
+/// caller serials, versions and peer liveness stay symbolic. With a symbolic shape every map
+/// update goes through an if-then-else over whole `ConnectionState`s and the SAT back end runs
+/// out of memory (> 11 GB); with a concrete shape a lemma takes well under a minute.
+pub(crate) fn call_world(owner: u8, caller_a: u8, caller_b: u8, shape: (bool, bool, bool, bool)) -> CallWorld {
     let mut w = new_world();
     add_conn(&mut w, 0);
     add_conn(&mut w, 1);
-    let owner = any_below(2);
     add_object(&mut w, 0, 10, owner);
     add_service(&mut w, 0, 10, 0, 20, ServiceInfo::new(1));
-    let a = any_call_spec();
-    let b = any_call_spec();
+    let (a_present, a_aborted, b_present, b_aborted) = shape;
+    let a = any_call_spec(a_present, caller_a, a_aborted);
+    let b = any_call_spec(b_present, caller_b, b_aborted);
     kani::assume(!(a.present && b.present) || a.serial != b.serial);
     kani::assume(!(a.present && b.present && !a.aborted && !b.aborted && a.caller == b.caller) || a.caller_serial != b.caller_serial);
     install_call(&mut w, &a, owner);
@@ -1019,11 +989,9 @@ mod calls {
     /// to the caller, under the caller's serial, result unchanged; everything else is dropped
     /// without touching other calls (in particular a stale reply to an aborted call whose caller
     /// serial has been reused).
-    #[kani::proof]
-    #[kani::unwind(18)]
-    fn q_c02_c11_call_function_reply() {
-        let mut cw = call_world();
-        let who = any_below(2);
+    fn call_function_reply_lemma(ca: u8, cb: u8, who: u8, shape: (bool, bool, bool, bool)) {
+        let owner = 0;
+        let mut cw = call_world(owner, ca, cb, shape);
         let serial: u32 = kani::any();
         let hit_a = cw.a.present && cw.a.serial == serial;
         let hit_b = cw.b.present && cw.b.serial == serial;
@@ -1054,17 +1022,16 @@ mod calls {
                     let expect = if send_fails(t.caller) { 0 } else { 1 };
                     assert!(log_len() == expect);
                     if expect == 1 {
-                        assert!(log(0).to == t.caller, "the reply goes to the caller");
-                        let Message::CallFunctionReply(rep) = &log(0).msg else { panic!("wrong message kind") };
+                        let rep = log(0);
+                        assert!(rep.to == t.caller && rep.kind == K::CallFunctionReply, "the reply goes to the caller");
                         assert!(rep.serial == t.caller_serial, "under the caller's own serial");
-                        let same = match (&rep.result, res_tag % 3) {
-                            (CallFunctionResult::Ok(v), 0) => v.len() == 2,
-                            (CallFunctionResult::InvalidFunction, 1) => true,
-                            (CallFunctionResult::InvalidArgs, 2) => true,
-                            _ => false,
+                        let same = match res_tag % 3 {
+                            0 => rep.code == 0 && rep.vlen == 2 && rep.v0 == 3 && rep.v1 == 7,
+                            1 => rep.code == 4,
+                            _ => rep.code == 5,
                         };
-                        assert!(same, "with the owner's result unchanged");
-                        assert!(log(0).version == Some(version_of(&cw.w, who)), "payload tagged with the replier's version");
+                        assert!(same, "with the owner's result and payload unchanged");
+                        assert!(rep.vminor as u32 == minor_of(&cw.w, who), "payload tagged with the replier's version");
                     }
                     assert!(backref(&cw.w, t.caller, t.caller_serial).is_none(), "the caller's tracking entry is gone");
                 }
@@ -1072,18 +1039,21 @@ mod calls {
                 assert!(spec_state_unchanged(&cw, &other), "other pending calls are not affected");
             }
         }
-        kani::cover!(target.is_some() && who == cw.owner && log_len() == 1);
-        kani::cover!(hit_a && cw.a.aborted && cw.b.present && !cw.b.aborted && cw.b.caller == cw.a.caller && cw.b.caller_serial == cw.a.caller_serial && who == cw.owner);
+        if shape == (true, true, true, false) && ca == cb && who == owner {
+            // serial reuse: stale reply to an aborted call whose caller serial is in use again
+            kani::cover!(hit_a && cw.b.caller_serial == cw.a.caller_serial);
+        }
+        if shape == (true, false, false, false) && who == owner {
+            kani::cover!(hit_a && log_len() == 1);
+        }
         std::mem::forget(cw);
     }
 
     /// Abort by the caller: exactly one `Aborted` reply under the caller's serial, the entry is
     /// marked aborted and the back-reference removed; the owner is told iff it speaks >= 1.16.
-    #[kani::proof]
-    #[kani::unwind(18)]
-    fn q_c02_c11_abort_call() {
-        let mut cw = call_world();
-        let who = any_below(2);
+    fn abort_call_lemma(ca: u8, cb: u8, who: u8, shape: (bool, bool, bool, bool)) {
+        let owner = 0;
+        let mut cw = call_world(owner, ca, cb, shape);
         let caller_serial: u32 = kani::any();
         let minor = minor_of(&cw.w, who);
         let tracked = backref(&cw.w, who, caller_serial);
@@ -1103,9 +1073,9 @@ mod calls {
                     cw.w.b.abort_call(&mut cw.w.st, s, conn(callee));
                     assert!(call_pending(&cw.w, s) == Some((caller_serial, who, true)), "entry stays, marked aborted");
                     assert!(backref(&cw.w, who, caller_serial).is_none());
-                    let to_caller = count_kind_to(who, |m| matches!(m, Message::CallFunctionReply(rep) if rep.serial == caller_serial && rep.result == CallFunctionResult::Aborted));
+                    let to_caller = count_kind_to(who, K::CallFunctionReply, |e| e.serial == caller_serial && e.code == 2);
                     assert!(to_caller == if send_fails(who) { 0 } else { 1 }, "exactly one Aborted reply to the caller");
-                    let to_owner = count_kind_to(callee, |m| matches!(m, Message::AbortFunctionCall(a) if a.serial == s));
+                    let to_owner = count_kind_to(callee, K::AbortFunctionCall, |e| e.serial == s);
                     assert!(to_owner == if owner_minor >= 16 && !send_fails(callee) { 1 } else { 0 }, "owner told iff it speaks >= 1.16");
                     // aborting again changes nothing and sends nothing more
                     let n = log_len();
@@ -1114,8 +1084,43 @@ mod calls {
                 }
             }
         }
-        kani::cover!(minor >= 16 && tracked.is_some());
+        if who == ca && shape.0 && !shape.1 {
+            kani::cover!(minor >= 16 && tracked.is_some());
+        }
         std::mem::forget(cw);
+    }
+
+    macro_rules! shapes {
+        ($($name:ident = $f:ident($a:expr, $b:expr, $w:expr, $shape:expr);)*) => {$(
+            #[kani::proof]
+            #[kani::unwind(18)]
+            fn $name() {
+                $f($a, $b, $w, $shape);
+            }
+        )*};
+    }
+
+    // caller of call A, caller of call B, sender of the message, (A present, A aborted, B present, B aborted)
+    const ONE: (bool, bool, bool, bool) = (true, false, false, false);
+    const ONE_ABORTED: (bool, bool, bool, bool) = (true, true, false, false);
+    const TWO: (bool, bool, bool, bool) = (true, false, true, false);
+    const REUSE: (bool, bool, bool, bool) = (true, true, true, false);
+    const NONE_PENDING: (bool, bool, bool, bool) = (false, false, false, false);
+    shapes! {
+        q_c02_c11_reply_none_pending = call_function_reply_lemma(1, 1, 0, NONE_PENDING);
+        q_c02_c11_reply_one_by_owner = call_function_reply_lemma(1, 1, 0, ONE);
+        q_c02_c11_reply_one_by_other = call_function_reply_lemma(1, 1, 1, ONE);
+        q_c02_c11_reply_one_self_call = call_function_reply_lemma(0, 0, 0, ONE);
+        q_c02_c11_reply_one_aborted = call_function_reply_lemma(1, 1, 0, ONE_ABORTED);
+        q_c02_c11_reply_two_same_caller = call_function_reply_lemma(1, 1, 0, TWO);
+        q_c02_c11_reply_two_callers = call_function_reply_lemma(0, 1, 0, TWO);
+        q_c02_c11_reply_serial_reuse = call_function_reply_lemma(1, 1, 0, REUSE);
+        q_c02_c11_reply_serial_reuse_self = call_function_reply_lemma(0, 0, 0, REUSE);
+        q_c02_c11_abort_one = abort_call_lemma(1, 1, 1, ONE);
+        q_c02_c11_abort_one_self = abort_call_lemma(0, 0, 0, ONE);
+        q_c02_c11_abort_two = abort_call_lemma(1, 1, 1, TWO);
+        q_c02_c11_abort_by_other = abort_call_lemma(1, 1, 0, ONE);
+        q_c02_c11_abort_after_abort = abort_call_lemma(1, 1, 1, REUSE);
     }
 
     #[cfg(verif_replay)]
@@ -1202,7 +1207,7 @@ mod events {
             let mut c = 0u8;
             while c < 3 {
                 let subscribed = ew.sub[c as usize][e as usize] || ew.all[c as usize];
-                let got = count_kind_to(c, |m| matches!(m, Message::EmitEvent(ev) if ev.service_cookie == svc_cookie(20) && ev.event == e && ev.value.len() == 2));
+                let got = count_kind_to(c, K::EmitEvent, |x| x.cookie == 20 && x.aux == e && x.vlen == 2 && x.v0 == 3 && x.v1 == 7);
                 let expect = if subscribed && !send_fails(c) { 1 } else { 0 };
                 assert!(got == expect, "delivered exactly once to each subscribed connection and to nobody else");
                 assert!(log_count_to(c) == got, "nothing else is sent");
@@ -1229,14 +1234,14 @@ mod events {
         kani::assume(n0 < 3 || ew.sub[who as usize][e as usize]);
         let r = ew.w.b.subscribe_event(&conn(who), SubscribeEvent { serial: Some(serial), service_cookie: cookie, event: e });
         assert!(r.is_ok());
-        let replies = count_kind_to(who, |m| matches!(m, Message::SubscribeEventReply(rep) if rep.serial == serial));
+        let replies = count_kind_to(who, K::SubscribeEventReply, |x| x.serial == serial);
         assert!(replies == 1, "exactly one reply");
         if !known {
-            assert!(log_len() == 1);
-            assert!(matches!(&log(0).msg, Message::SubscribeEventReply(rep) if rep.result == SubscribeEventResult::InvalidService));
+            assert!(log_len() == 1 && log(0).kind == K::SubscribeEventReply && log(0).code == 1);
         } else {
+            assert!(find_where(|x| x.kind == K::SubscribeEventReply).unwrap().code == 0);
             assert!(svc_has_sub(&ew.w, e, who) && conn_has_sub(&ew.w, e, who), "recorded on both sides");
-            let asked = count_kind_to(ew.owner, |m| matches!(m, Message::SubscribeEvent(req) if req.serial.is_none() && req.event == e && req.service_cookie == svc_cookie(20)));
+            let asked = count_kind_to(ew.owner, K::SubscribeEvent, |x| !x.has_serial && x.aux == e && x.cookie == 20);
             let first = n0 == 0;
             assert!(asked == if first && !send_fails(ew.owner) { 1 } else { 0 }, "owner told to start exactly on the 0 -> 1 transition");
         }
@@ -1261,7 +1266,7 @@ mod events {
             assert!(log_len() == 0);
         } else {
             assert!(!svc_has_sub(&ew.w, e, who) && !conn_has_sub(&ew.w, e, who));
-            let told = count_kind_to(ew.owner, |m| matches!(m, Message::UnsubscribeEvent(req) if req.event == e && req.service_cookie == svc_cookie(20)));
+            let told = count_kind_to(ew.owner, K::UnsubscribeEvent, |x| x.aux == e && x.cookie == 20);
             let last = was && n0 == 1;
             assert!(told == if last && !send_fails(ew.owner) { 1 } else { 0 }, "owner told to stop exactly on the 1 -> 0 transition");
             assert!(log_len() == told);
@@ -1278,4 +1283,70 @@ mod events {
 
     #[cfg(verif_replay)]
     include!("/verif/.cache/replay/broker__verif__events.rs");
+}
+
+#[cfg(verif_unit = "probe")]
+mod probe {
+    use super::*;
+
+    #[kani::proof]
+    #[kani::unwind(18)]
+    fn p1_two_conns() {
+        let mut w = new_world();
+        add_conn(&mut w, 0);
+        add_conn(&mut w, 1);
+        assert!(w.b.conns.len() == 2);
+        std::mem::forget(w);
+    }
+
+    #[kani::proof]
+    #[kani::unwind(18)]
+    fn p2_object() {
+        let mut w = new_world();
+        add_conn(&mut w, 0);
+        add_conn(&mut w, 1);
+        add_object(&mut w, 0, 10, 0);
+        assert!(w.b.objs.len() == 1);
+        std::mem::forget(w);
+    }
+
+    #[kani::proof]
+    #[kani::unwind(18)]
+    fn p3_service() {
+        let mut w = new_world();
+        add_conn(&mut w, 0);
+        add_conn(&mut w, 1);
+        add_object(&mut w, 0, 10, 0);
+        add_service(&mut w, 0, 10, 0, 20, ServiceInfo::new(1));
+        assert!(w.b.svcs.len() == 1);
+        std::mem::forget(w);
+    }
+
+    #[kani::proof]
+    #[kani::unwind(18)]
+    fn p4_call() {
+        let cw = call_world(0, 1, 1, (true, false, false, false));
+        assert!(call_pending(&cw.w, cw.a.serial).is_some());
+        std::mem::forget(cw);
+    }
+
+    #[kani::proof]
+    #[kani::unwind(18)]
+    fn p5_reply() {
+        let mut cw = call_world(0, 1, 1, (true, false, false, false));
+        let serial = cw.a.serial;
+        cw.w.b.call_function_reply(&mut cw.w.st, &conn(0), CallFunctionReply { serial, result: CallFunctionResult::InvalidArgs });
+        assert!(call_pending(&cw.w, serial).is_none());
+        std::mem::forget(cw);
+    }
+
+    #[kani::proof]
+    #[kani::unwind(18)]
+    fn p6_reply_value() {
+        let mut cw = call_world(0, 1, 1, (true, false, false, false));
+        let serial = cw.a.serial;
+        cw.w.b.call_function_reply(&mut cw.w.st, &conn(0), CallFunctionReply { serial, result: CallFunctionResult::Ok(small_value()) });
+        assert!(call_pending(&cw.w, serial).is_none());
+        std::mem::forget(cw);
+    }
 }
